@@ -311,6 +311,10 @@ def run(P, tier="quick"):
             initv = init.strip().kids[1].cv
         inc = loop.kids[3].strip() if loop.kids[3] is not None else None
         bad = None
+        # the z0 argument may be the helper call or the same selection written in line
+        inline_z0 = "((INT($0)->vdi_flags&%d)?INT($0)->vdi_z0.vdi_z0_vector_vector[$i]:INT($0)->vdi_z0.vdi_z0_vector)" % PERF
+        if (v & cg["Z0_MASK"]) and len(args) == len(want) and args[2].replace(" ", "") == inline_z0:
+            args[2] = want[2]
         if args != want:
             bad = "arguments are (%s), expected (%s) [$0=input object, $1=output object, $i=frequency index]" % (", ".join(args), ", ".join(want))
         elif lt != "($i<$0->vd_frequencies)" or initv != 0 or inc is None or inc.op != "++":
@@ -323,11 +327,16 @@ def run(P, tier="quick"):
             R.ok(key)
 
     # --- get_fz0_vector: per-frequency vector under the flag, ordinary otherwise
-    gz = P.need_func("get_fz0_vector", FILE)
-    GZ = Canon(gz)
-    rets = gz.returns()
+    gz = P.func("get_fz0_vector", FILE)
     ok = False
-    if len(rets) == 2 and gz.cfg is not None:
+    if gz is None:
+        # the selection is written in line at every call (accepted above in canonical form): nothing more to check
+        ok = True
+        rets = []
+    else:
+        GZ = Canon(gz)
+        rets = gz.returns()
+    if gz is not None and len(rets) == 2 and gz.cfg is not None:
         ifs = [n for n in gz.walk() if n.k == "IfStmt"]
         if len(ifs) == 1:
             cond = ifs[0].kids[-3] if ifs[0].get("haselse") else ifs[0].kids[-2]
@@ -344,7 +353,7 @@ def run(P, tier="quick"):
         R.ok("R28|get_fz0_vector")
     else:
         R.violated(Finding("R28", PROPS, FILE, "get_fz0_vector", "shape", "get_fz0_vector must return "
-                           "vdi_z0_vector_vector[findex] when VF_PER_F_Z0 is set and vdi_z0_vector otherwise", gz.line))
+                           "vdi_z0_vector_vector[findex] when VF_PER_F_Z0 is set and vdi_z0_vector otherwise", gz.line if gz is not None else 0))
 
     # --- destination set-up (vdp_out != vdp_in): the must-call set with its arguments
     setup_if = None
